@@ -2,8 +2,8 @@ package main
 
 import (
 	"fmt"
-	"sort"
 	"go/types"
+	"sort"
 	"strings"
 
 	"golang.org/x/tools/go/ssa"
@@ -56,6 +56,13 @@ func (fr *frame) call(v ssa.Value, c *ssa.CallCommon, st *State, site ssa.Instru
 	vc := fr.vc()
 	e := fr.enc
 	if b, ok := c.Value.(*ssa.Builtin); ok {
+		if b.Name() == "close" && site != nil {
+			// closing a channel is a program point contracts can anchor at
+			fr.callArgs = []Term{fr.val(c.Args[0])}
+			fr.callArgTypes = []types.Type{c.Args[0].Type()}
+			fr.checkAsserts("call "+fr.callAnchor("close", site), st)
+			fr.callArgs = nil
+		}
 		fr.builtin(v, b, c, st)
 		return
 	}
@@ -147,6 +154,7 @@ func (fr *frame) call(v ssa.Value, c *ssa.CallCommon, st *State, site ssa.Instru
 		for _, b := range bindings {
 			bterms = append(bterms, fr.val(b))
 		}
+		fr.curCall, fr.curSite = c, site
 		res := fr.applyContract(ct, callee, sig, pnames, args, argTypes, bterms, st, anchor)
 		fr.setResult(v, res)
 		return
@@ -358,6 +366,7 @@ func (fr *frame) applyContract(ct *Contract, callee *ssa.Function, sig *types.Si
 		}
 	}
 	pre := st.clone()
+	preFacts := len(vc.facts)
 	fr.advanceHW(st)
 	res := fr.freshResults(sig, st, sanitizeLabel(ct.Key))
 	// effects (modifies items may mention the results, e.g. ghost state of a new object)
@@ -390,6 +399,9 @@ func (fr *frame) applyContract(ct *Contract, callee *ssa.Function, sig *types.Si
 			if ms.all {
 				what += " [" + ms.why + "]"
 			}
+			if ms.book {
+				vc.warn("%s: callee %s may run unknown code (%s): bookkeeping ghosts havoced", shortFn(fr.fn), ct.Key, ms.bookWhy)
+			}
 			fr.keepBook = !ms.book
 			fr.frameHavoc(st, what)
 			fr.keepBook = false
@@ -415,6 +427,19 @@ func (fr *frame) applyContract(ct *Contract, callee *ssa.Function, sig *types.Si
 			continue
 		}
 		fr.assume(st, g)
+	}
+	// what the contract promises must be compatible with what is known here: a
+	// contradiction would silently make every path through this call infeasible
+	if fr.parent == nil && len(ct.Ensures) > 0 && st.reach != "false" {
+		base := fmt.Sprintf("%s#vacuity@ret:%s%s", shortFn(e.root), fr.anchorPrefix(), anchor)
+		e.callCovers = append(e.callCovers,
+			&Obligation{Name: base + "/before", Kind: "vacuity", Sub: "callpre", Guard: pre.reach, Goal: "false", NFacts: preFacts, Expect: "sat", Func: shortFn(e.root), Desc: "call site reachable"},
+			&Obligation{Name: base, Kind: "vacuity", Sub: "callret", Guard: st.reach, Goal: "false", NFacts: len(vc.facts), Expect: "sat", Func: shortFn(e.root), PairOf: base + "/before",
+				Desc: "what the contract of " + ct.Key + " ensures is compatible with what is known at this call"})
+	}
+	// callbacks the callee runs (e.g. sync.Once.Do): executed here, on a branch
+	for _, inv := range ct.Invokes {
+		fr.invokeArg(inv, ct, pnames, &post, pre, st)
 	}
 	// monitors: specification-only records of the call's verdict
 	for _, mon := range ct.Monitors {
@@ -955,7 +980,10 @@ func (fr *frame) callAnchor(name string, site ssa.Instruction) string {
 				if cc == nil {
 					continue
 				}
-				if _, isB := cc.Value.(*ssa.Builtin); isB {
+				if b, isB := cc.Value.(*ssa.Builtin); isB {
+					if b.Name() == "close" {
+						fr.callSites["close"] = append(fr.callSites["close"], ins)
+					}
 					continue
 				}
 				n := fr.anchorNameOf(cc)
@@ -1060,4 +1088,113 @@ func (fr *frame) frameGhostRegion(key string, pred func(string) string, keySort 
 		return
 	}
 	run()
+}
+
+// invokeArg runs the function-valued argument named by an "invokes" clause on
+// a branch guarded by the clause's condition (evaluated in the pre-state) and
+// merges the result back.
+func (fr *frame) invokeArg(inv Invoke, ct *Contract, pnames []string, post *specCtx, pre *State, st *State) {
+	vc := fr.vc()
+	c, site := fr.curCall, fr.curSite
+	if c == nil {
+		vc.warn("invokes %s: no call context", inv.Text)
+		fr.havocEverything(st, false, "invokes "+inv.Text)
+		return
+	}
+	idx := -1
+	for i, n := range pnames {
+		if n == inv.Param {
+			idx = i
+		}
+	}
+	off := 0
+	if c.IsInvoke() {
+		off = 1
+	}
+	if idx-off < 0 || idx-off >= len(c.Args) {
+		vc.warn("invokes %s: no such parameter of %s", inv.Param, ct.Key)
+		fr.havocEverything(st, false, "invokes "+inv.Text)
+		return
+	}
+	fval := c.Args[idx-off]
+	cond := "true"
+	if inv.Cond != nil {
+		pc := *post
+		pc.st = pre
+		pc.old = pre
+		g, err := pc.trBool(inv.Cond)
+		if err != nil {
+			vc.warn("invokes %s: %v", inv.Text, err)
+			fr.havocEverything(st, false, "invokes "+inv.Text)
+			return
+		}
+		cond = g
+	}
+	saveCall, saveSite := fr.curCall, fr.curSite
+	yes := st.clone()
+	ry := vc.freshConst("reach!"+fr.prefix+".invoke", SBool)
+	vc.fact(eq(ry.S, and(st.reach, cond)))
+	yes.reach = ry.S
+	cc := &ssa.CallCommon{Value: fval}
+	fr.call(nil, cc, yes, site)
+	no := st.clone()
+	rn := vc.freshConst("reach!"+fr.prefix+".noinvoke", SBool)
+	vc.fact(eq(rn.S, and(st.reach, not(cond))))
+	no.reach = rn.S
+	m := vc.mergeStates([]edgeIn{{cond: yes.reach, st: yes}, {cond: no.reach, st: no}}, fr.prefix+".invokejoin")
+	*st = *m
+	fr.curCall, fr.curSite = saveCall, saveSite
+}
+
+// spawnMonitors: "go f(args)" records the monitors of f's contract that do
+// not depend on results (the call has been started).
+func (fr *frame) spawnMonitors(c *ssa.CallCommon, st *State) {
+	e := fr.enc
+	vc := fr.vc()
+	callee := c.StaticCallee()
+	if callee == nil {
+		return
+	}
+	ct := e.db.ByKey[callee.String()]
+	if ct == nil || len(ct.Monitors) == 0 {
+		return
+	}
+	ctx := &specCtx{fr: fr, st: st, old: st, params: map[string]Term{}, ptypes: map[string]types.Type{}, bound: map[string]Term{}}
+	if callee.Pkg != nil {
+		ctx.pkg = callee.Pkg.Pkg
+	}
+	for i, p := range callee.Params {
+		if i < len(c.Args) {
+			ctx.params[p.Name()] = fr.coerce(fr.val(c.Args[i]), sortOf(c.Args[i].Type()))
+			ctx.ptypes[p.Name()] = c.Args[i].Type()
+		}
+	}
+	for _, mon := range ct.Monitors {
+		g := e.db.Ghosts[mon.Ghost]
+		if g == nil || g.Key == nil {
+			continue
+		}
+		k, err1 := ctx.tr(mon.Key)
+		v, err2 := ctx.tr(mon.Val)
+		if err1 != nil || err2 != nil {
+			continue // depends on results: not known at the spawn
+		}
+		key := vc.keyGhost(g)
+		vc.set(st, key, fmt.Sprintf("(store %s %s %s)", vc.cur(st, key), k.S, v.S))
+	}
+}
+
+// ghostRecv counts the values received from a channel (chrecvd), when the
+// receive delivered one (cond).
+func (fr *frame) ghostRecv(ch ssa.Value, cond string, st *State) {
+	g := fr.enc.db.Ghosts["chrecvd"]
+	if g == nil || g.Key == nil {
+		return
+	}
+	vc := fr.vc()
+	key := vc.keyGhostChan(g, ch.Type())
+	c := fr.val(ch)
+	fr.frameGhostAt(key, c.S, st, cond)
+	cur := vc.cur(st, key)
+	vc.set(st, key, ite(cond, fmt.Sprintf("(store %s %s (+ (select %s %s) 1))", cur, c.S, cur, c.S), cur))
 }
